@@ -6,5 +6,6 @@ CONSTANTS
   MaxDup = 1
   MaxLen = 12
   MaxTimeouts = 1
+  MaxForged = 2
 INVARIANT Report
 CHECK_DEADLOCK FALSE
